@@ -2512,6 +2512,9 @@ mod partb {
                 push(&mut v, fi, "trunc", trunc_lengths(rel, bytes.len(), quick).into_iter().map(BCase::Len).collect());
             }
         }
+        // small blocks first: under a time cap every (file class, region) gets explored before the
+        // big cell/slot regions of the 700-row table consume the budget (stable, deterministic)
+        v.sort_by_key(|b| b.info().n);
         v
     }
 }
@@ -2573,7 +2576,12 @@ impl Check for C23 {
         }
         run_group(&blocks, &sels, 0, BTreeMap::new(), ctx, rep, &shared, &mut env);
         rep.bound("enumerated_case_slots", json!(base));
-        rep.expect_nonzero("varint.cases");
+        if ctx.opt("dec").is_none() && ctx.opt("part").is_none() && ctx.opt("bsel").is_none() {
+            // rejections (Err) must have been exercised by every decoder family, and the whole-database part must have run
+            for k in ["varint.calls_err", "key.calls_err", "record.calls_err", "jsonb.calls_err", "array.calls_err", "leaf.calls_err", "interior.calls_err", "catalog.calls_err", "table_header.calls_err", "db.table.calls_err", "db.table.calls_ok", "db.index.cases"] {
+                rep.expect_nonzero(k);
+            }
+        }
     }
 
     fn replay(&self, ctx: &Ctx, case: &Value, rep: &mut Reporter) {
